@@ -39,18 +39,19 @@ type ExtrasConfig struct {
 	L1Pct       int // block carries 1..2 L1-handler transactions
 	SierraPct   int // block declares a Sierra class
 	MigratePct  int // per migratable class, in a 0.14.1 block
-	SysPct      int // block writes non-zero values to system contract 0x1 / 0x2
+	SysPct      int // block writes to system contract 0x1 / 0x2
+	SysZeroPct  int // chance that such a write is a zero write (may empty the contract: the shape both backends get wrong)
 	ZeroNoopPct int // block writes zero to an absent slot of a deployed-or-being-deployed contract
 }
 
 func DefaultExtrasConfig() *ExtrasConfig {
-	return &ExtrasConfig{V0141Pct: 40, TxPct: 55, L1Pct: 30, SierraPct: 25, MigratePct: 45, SysPct: 15, ZeroNoopPct: 0}
+	return &ExtrasConfig{V0141Pct: 40, TxPct: 55, L1Pct: 30, SierraPct: 25, MigratePct: 45, SysPct: 15, SysZeroPct: 0, ZeroNoopPct: 0}
 }
 
 // Emitters of generated events.
 var Emitters = []string{"64", "65", "77"}
 
-// IsSysAddr: the protocol system contracts 0x1 / 0x2 (not covered by the Coq models).
+// IsSysAddr: the protocol system contracts 0x1 / 0x2.
 func IsSysAddr(a string) bool { return a == "1" || a == "2" }
 
 // AddExtras decorates spec (a block about to be pushed on top of g's abstract head) and updates reg.
@@ -107,15 +108,55 @@ func AddExtras(r *hx.RNG, g *Gen, reg *Registry, cfg *ExtrasConfig, spec *BlockS
 		labels = append(labels, "sierra-declaration")
 	}
 	if r.Chance(cfg.SysPct) {
+		cur := g.Cur()
 		for i := 1 + r.Intn(2); i > 0; i-- {
-			a, k := []string{"1", "2"}[r.Intn(2)], small[r.Intn(len(small))]
+			a, k := []string{"1", "2"}[r.Intn(2)], small[r.Intn(2)]
 			dup := false
 			for _, e := range spec.Diff.Store {
 				dup = dup || (e.A == a && e.K == k)
 			}
-			if !dup {
-				spec.Diff.Store = append(spec.Diff.Store, AKV{A: a, K: k, V: small[r.Intn(3)]})
-				labels = append(labels, "system-contract-write")
+			if dup {
+				continue
+			}
+			v := small[r.Intn(3)]
+			if r.Chance(cfg.SysZeroPct) {
+				// a zero write: preferably over a slot that is non-zero now (may empty the contract), else -
+				// one time in three - to a zero slot / a missing contract
+				var nz []string
+				for _, kk := range small[:2] {
+					if cur.SlotAt(a, kk) != "0" {
+						nz = append(nz, kk)
+					}
+				}
+				switch {
+				case len(nz) > 0:
+					k, v = nz[r.Intn(len(nz))], "0"
+					for _, e := range spec.Diff.Store {
+						dup = dup || (e.A == a && e.K == k)
+					}
+					if dup {
+						continue
+					}
+				case r.Chance(33):
+					v = "0"
+				}
+			}
+			spec.Diff.Store = append(spec.Diff.Store, AKV{A: a, K: k, V: v})
+			labels = append(labels, "system-contract-write")
+			if v == "0" {
+				labels = append(labels, "system-contract-zero-write")
+			}
+		}
+		// does the block empty a system contract (or write only zeros to a missing one)?
+		after := cur.Clone()
+		after.Apply(0, &spec.Diff)
+		for _, a := range []string{"1", "2"} {
+			touched := false
+			for _, e := range spec.Diff.Store {
+				touched = touched || e.A == a
+			}
+			if touched && !after.SysExists(a) {
+				labels = append(labels, "system-contract-left-empty")
 			}
 		}
 	}
